@@ -30,48 +30,71 @@ def firstMatchingScope (m : PathB → PathB → Bool) (ds : List Directive) (pat
 def shadowed (m : PathB → PathB → Bool) (ds : List Directive) (d : Directive) (path : PathB) : Bool :=
   m path d.scope && firstMatchingScope m ds path != some d.scope
 
-/-- verdict for directive number `i` -/
-def directiveVerdict (m : PathB → PathB → Bool) (ds : List Directive) (path : PathB) (panicked : Bool)
-    (lines : List Line) (i : Nat) (d : Directive) : String :=
-  let n := countFor lines i
-  if wants m d path then
-    if n = 1 then "ok"
-    else if n > 1 then "bad:duplicate-line:more than one line for one request in one log"
-    else if panicked then "bad:panic-unlogged:the handler panicked, the client got 500, no line was written"
-    else if shadowed m ds d path then "bad:shadowed-rule:an earlier log directive with another scope took the request"
-    else "bad:missing-line:request in scope and not excepted, but no line"
-  else if n = 0 then "ok"
-  else "bad:unwanted-line:line written for a request out of scope or excepted"
+/-- verdict classes -/
+inductive Verdict where
+  | ok
+  | duplicateLine
+  | panicUnlogged
+  | shadowedRule
+  | missingLine
+  | unwantedLine
+  | statusMismatch
+  | sizeMismatch
+deriving DecidableEq, Repr
+
+def Verdict.text : Verdict → String
+  | .ok => "ok"
+  | .duplicateLine => "bad:duplicate-line:more than one line for one request in one log"
+  | .panicUnlogged => "bad:panic-unlogged:the handler panicked, the client got 500, no line was written"
+  | .shadowedRule => "bad:shadowed-rule:an earlier log directive with another scope took the request"
+  | .missingLine => "bad:missing-line:request in scope and not excepted, but no line"
+  | .unwantedLine => "bad:unwanted-line:line written for a request out of scope or excepted"
+  | .statusMismatch => "bad:status-mismatch:logged status differs from the status the client received"
+  | .sizeMismatch => "bad:size-mismatch:logged size differs from the body bytes the client received"
 
 /-- the two ways of failing that are recorded as known findings of the code -/
-def recorded (v : String) : Bool := v.startsWith "bad:shadowed-rule:" || v.startsWith "bad:panic-unlogged:"
+def Verdict.recorded : Verdict → Bool
+  | .panicUnlogged => true
+  | .shadowedRule => true
+  | _ => false
 
-/-- "ok" iff every verdict is "ok"; otherwise a failing one, preferring a class that is not one
+/-- verdict for directive number `i` -/
+def directiveVerdict (m : PathB → PathB → Bool) (ds : List Directive) (path : PathB) (panicked : Bool)
+    (lines : List Line) (i : Nat) (d : Directive) : Verdict :=
+  let n := countFor lines i
+  if wants m d path then
+    if n = 1 then .ok
+    else if n > 1 then .duplicateLine
+    else if panicked then .panicUnlogged
+    else if shadowed m ds d path then .shadowedRule
+    else .missingLine
+  else if n = 0 then .ok
+  else .unwantedLine
+
+/-- `.ok` iff every verdict is `.ok`; otherwise a failing one, preferring a class that is not one
 of the recorded findings so that a recorded failure never hides a new one in the same case -/
-def firstBad (vs : List String) : String :=
-  match vs.find? fun v => v != "ok" && !recorded v with
+def firstBad (vs : List Verdict) : Verdict :=
+  match vs.find? fun v => v != .ok && !v.recorded with
   | some v => v
-  | none => (vs.find? fun v => v != "ok").getD "ok"
+  | none => (vs.find? fun v => v != .ok).getD .ok
 
 def directivesVerdictGo (m : PathB → PathB → Bool) (ds : List Directive) (path : PathB) (panicked : Bool)
-    (lines : List Line) : Nat → List Directive → List String
+    (lines : List Line) : Nat → List Directive → List Verdict
   | _, [] => []
   | i, d :: rest => directiveVerdict m ds path panicked lines i d :: directivesVerdictGo m ds path panicked lines (i + 1) rest
 
-/-- every line reports what the client received -/
-def accurate (lines : List Line) (clientStatus clientSize : Nat) : Bool :=
-  lines.all fun l => l.status == clientStatus && l.size == clientSize
-
 /-- The property on one request. `panicked` is part of the case (the scripted handler), the
 rest is observed. -/
+def verdictClass (m : PathB → PathB → Bool) (ds : List Directive) (path : PathB) (panicked : Bool)
+    (lines : List Line) (clientStatus clientSize : Nat) : Verdict :=
+  let v := firstBad (directivesVerdictGo m ds path panicked lines 0 ds)
+  if v ≠ .ok then v
+  else if lines.any fun l => l.status != clientStatus then .statusMismatch
+  else if lines.any fun l => l.size != clientSize then .sizeMismatch
+  else .ok
+
 def verdict (m : PathB → PathB → Bool) (ds : List Directive) (path : PathB) (panicked : Bool)
     (lines : List Line) (clientStatus clientSize : Nat) : String :=
-  let v := firstBad (directivesVerdictGo m ds path panicked lines 0 ds)
-  if v ≠ "ok" then v
-  else if lines.any fun l => l.status != clientStatus then
-    "bad:status-mismatch:logged status differs from the status the client received"
-  else if lines.any fun l => l.size != clientSize then
-    "bad:size-mismatch:logged size differs from the body bytes the client received"
-  else "ok"
+  (verdictClass m ds path panicked lines clientStatus clientSize).text
 
 end Casket.LogSpec
